@@ -160,6 +160,11 @@ func (c *stageCache) Peek(s gostatsd.Source) (*gostatsd.Instance, bool) {
 func (c *stageCache) IpSink() chan<- gostatsd.Source           { return c.sink }
 func (c *stageCache) InfoSource() <-chan gostatsd.InstanceInfo { return c.source }
 func (c *stageCache) EstimatedTags() int                       { return 2 }
+func (c *stageCache) del(s gostatsd.Source) {
+	c.mu.Lock()
+	delete(c.cached, s)
+	c.mu.Unlock()
+}
 func (c *stageCache) put(s gostatsd.Source, i *gostatsd.Instance) {
 	c.mu.Lock()
 	c.cached[s] = i
@@ -269,10 +274,12 @@ func runStages(em *hlib.Emitter, in input, final bool) {
 			c.Monitors = append(c.Monitors, "no delivery within 10 s after "+what)
 		}
 	}
-	release := func(ip string) {
+	release := func(ip string, cacheIt bool) {
 		src := gostatsd.Source(ip)
 		inst := instance(ip)
-		cache.put(src, inst)
+		if cacheIt {
+			cache.put(src, inst)
+		}
 		want := ch.VerifState().AwaitingMetrics[src] != nil
 		ch.VerifHandleInstanceInfo(ctx, gostatsd.InstanceInfo{IP: src, Instance: inst})
 		if want {
@@ -328,8 +335,12 @@ func runStages(em *hlib.Emitter, in input, final bool) {
 					continue
 				}
 				ninfo++
-				release(o.S)
+				release(o.S, !o.NoCache)
 				drain()
+			case "evict": // the cache entry expires: the address misses again
+				if ch != nil {
+					cache.del(gostatsd.Source(o.S))
+				}
 			}
 		}
 		if ch != nil { // every outstanding lookup is answered in the end
@@ -340,7 +351,7 @@ func runStages(em *hlib.Emitter, in input, final bool) {
 			}
 			sort.Strings(ips)
 			for _, ip := range ips {
-				release(ip)
+				release(ip, true)
 			}
 			drain()
 			if n := len(ch.VerifState().AwaitingMetrics); n != 0 {
@@ -394,6 +405,12 @@ func genStages(r *hlib.Rand, fam int) []input {
 	// "variant" tags v:1..v:3 that a filter of the tag stage drops: series of ONE map that differ
 	// only in them collide inside TagHandler.DispatchMetricMap
 	variant := p.Tags && r.Chance(3, 4)
+	// single-source runs: every batch comes from one address, so consecutive values of the lookup
+	// queue have the same source (X, info X, X again; X twice then info; ...)
+	single := p.Cloud && r.Chance(2, 5)
+	if single {
+		ips = ips[:1]
+	}
 	for bi := range specs {
 		specs[bi].Seed = nil
 		for di := range specs[bi].Dps {
@@ -420,6 +437,9 @@ func genStages(r *hlib.Rand, fam int) []input {
 			switch r.Intn(6) {
 			case 0:
 				d.Source = ""
+				if single {
+					d.Source = ips[0]
+				}
 			case 1:
 				d.Source = ips[r.Intn(len(ips))]
 			default:
@@ -506,9 +526,34 @@ func genStages(r *hlib.Rand, fam int) []input {
 		for _, bi := range order {
 			in.Ops = append(in.Ops, op{Op: "bmap", Dps: specs[bi].Dps})
 		}
-		for _, ip := range later {
+		insert := func(o op) {
 			at := r.Intn(len(in.Ops) + 1)
-			in.Ops = append(in.Ops[:at], append([]op{{Op: "info", S: ip}}, in.Ops[at:]...)...)
+			in.Ops = append(in.Ops[:at], append([]op{o}, in.Ops[at:]...)...)
+		}
+		for _, ip := range later {
+			// a result that releases the queue while later batches from the address still miss (they
+			// raced the lookup, or the answer is not cached), possibly several times, then maybe a
+			// caching result; or a cached entry that expires again
+			switch r.Intn(4) {
+			case 0:
+				insert(op{Op: "info", S: ip})
+			case 1:
+				insert(op{Op: "info", S: ip, NoCache: true})
+			case 2:
+				for n := r.Range(2, 3); n > 0; n-- {
+					insert(op{Op: "info", S: ip, NoCache: true})
+				}
+				if r.Bool() {
+					insert(op{Op: "info", S: ip})
+				}
+			default:
+				insert(op{Op: "info", S: ip})
+				insert(op{Op: "evict", S: ip})
+				insert(op{Op: "info", S: ip, NoCache: r.Bool()})
+			}
+		}
+		if single && len(q.Cached) == 0 && r.Chance(2, 3) {
+			insert(op{Op: "info", S: ips[0], NoCache: true})
 		}
 		out = append(out, in)
 	}
